@@ -8,6 +8,7 @@
   prefixes and any bytes after the record are rejected."
 -/
 import EnrVerif.Proofs.CodecTheorems
+import EnrVerif.Proofs.JsonLemmas
 
 namespace EnrVerif
 
@@ -88,6 +89,44 @@ theorem C12_trailing_bytes_rejected (S : Scheme) (r : Record) (h : Valid S r) (e
       rw [enrPrefix_not_prefix_b64] at this
       exact Bool.false_ne_true this
 
+/-! ### JSON through the model of serde_json's string layer (`Model/Json.lean`)
+
+`Serialize` writes the text as a JSON string literal (`jsonQuote`), `Deserialize` reads any JSON
+string literal (`jsonUnquote`: escapes, surrounding whitespace) and hands the unescaped content to
+`from_str`.  The JSON *document* of a record is therefore canonical on output, while on input every
+JSON spelling of the same string is accepted — and nothing else. -/
+
+/-- the JSON document serde_json writes is the quoted text, without any escape -/
+theorem C12_json_document (r : Record) : r.toJsonDoc = r.toJson ∧ r.toJsonDoc = jsonQuote r.toText :=
+  ⟨toJsonDoc_eq r, rfl⟩
+
+/-- deserialising the serialised form returns the record -/
+theorem C12_parse_json (S : Scheme) (r : Record) (h : Valid S r) : parseJson S r.toJson = some r :=
+  parseJson_toJson S r h
+
+/-- a JSON document is accepted exactly when it is a string literal whose content is the text of a
+    valid record, with or without the prefix -/
+theorem C12_parse_json_exact (S : Scheme) (j : Bytes) (r : Record) :
+    parseJson S j = some r ↔
+      ∃ s, jsonUnquote j = some s ∧ Valid S r ∧ (s = r.toText ∨ s = b64enc r.encode) :=
+  parseJson_iff S j r
+
+/-- quoting is lossless for every string -/
+theorem C12_json_quote_roundtrip (s : Bytes) : jsonUnquote (jsonQuote s) = some s :=
+  jsonUnquote_jsonQuote s
+
+/-- the reader is not injective: an escaped spelling of the text is a different document that
+    parses to the same record (so "canonical" holds of the writer, not of the reader) -/
+theorem C12_json_escaped_spelling (S : Scheme) (r : Record) (h : Valid S r) :
+    parseJson S ([34, 92, 117, 48, 48, 54, 53] ++ r.toText.drop 1 ++ [34]) = some r ∧
+      [34, 92, 117, 48, 48, 54, 53] ++ r.toText.drop 1 ++ [34] ≠ r.toJson :=
+  parseJson_escaped S r h
+
+#print axioms C12_json_document
+#print axioms C12_parse_json
+#print axioms C12_parse_json_exact
+#print axioms C12_json_quote_roundtrip
+#print axioms C12_json_escaped_spelling
 #print axioms C12_text_form
 #print axioms C12_json_form
 #print axioms C12_parse_text
